@@ -41,6 +41,29 @@ def unhx(s):
     return b'' if s == '-' else bytes.fromhex(s)
 
 
+# A payload is the UTF-8 form of the message TEXT.  A text with an UNPAIRED surrogate (a QString can hold one, UTF-8 cannot)
+# is carried as its "surrogatepass" encoding: ED A0..BF xx per lone surrogate - a sequence valid UTF-8 never contains.
+_SURR = re.compile(rb'\xed[\xa0-\xbf][\x80-\xbf]')
+
+
+def shown(p):
+    """the UTF-8 rendering Qt produces for the text (toUtf8 = toLocal8Bit in a UTF-8 locale): '?' per unpaired surrogate"""
+    return _SURR.sub(b'?', p) if p and b'\xed' in p else p
+
+
+def hx_text(p, for_impl):
+    """the protocol token of a message text: hex of the UTF-8 bytes; for the harness a text with unpaired surrogates travels
+    as 'u' + hex of its UTF-16BE code units (the model driver gets what Qt renders, see shown)"""
+    if p and b'\xed' in p and _SURR.search(p):
+        if not for_impl:
+            return hx(shown(p))
+        try:
+            return 'u' + p.decode('utf-8', 'surrogatepass').encode('utf-16-be', 'surrogatepass').hex()
+        except UnicodeError:
+            return hx(p)
+    return hx(p)
+
+
 # ------------------------------------------------------------------------------------ names
 class Names:
     def __init__(self, base, suffix):
@@ -199,6 +222,23 @@ def gen_case(rng, thorough=False):
             elif kind < 0.27 and n >= 1:
                 # a message whose LAST byte is a newline (n = 1: a lone newline): the record still gets its own terminator
                 p = (b'n%d.' % len([o for o in ops if o[0] == 'w']) + b'y' * n)[:n - 1] + b'\n'
+            elif 0.94 <= kind < 0.97 and n >= 2:
+                # a TEXT with unpaired surrogates (lone low, or lone high before something that is not a low one; never the LAST
+                # character of the text: Qt 5.15's stateful local-8-bit encoder drops an unpaired surrogate that ends the text while
+                # toUtf8() counts one byte for it - measured, outside the model): Qt renders each as one byte '?', and that is what
+                # the record is (n counts the rendering)
+                chars = list((('s%d.' % len([o for o in ops if o[0] == 'w'])) + 'y' * n)[:n])
+                for pos in sorted(rng.sample(range(n - 1), min(n - 1, rng.choice([1, 1, 2, 3]))), reverse=True):
+                    low = rng.random() < 0.7 or '\udc00' <= chars[pos + 1] <= '\udfff'
+                    chars[pos] = rng.choice('\udc00\udfff\udd37') if low else rng.choice('\ud800\udbff\ud83d')
+                p = ''.join(chars).encode('utf-8', 'surrogatepass')
+            elif 0.97 <= kind < 1.0 and n >= 1:
+                # U+0000 inside the text (start / middle / end / every second byte; n = 1: a lone NUL): a byte like any other
+                p = bytearray((b'z%d.' % len([o for o in ops if o[0] == 'w']) + b'y' * n)[:n])
+                where = rng.choice(['start', 'middle', 'end', 'several'])
+                for pos in {'start': [0], 'middle': [n // 2], 'end': [n - 1], 'several': list(range(0, n, 2))}[where]:
+                    p[pos] = 0
+                p = bytes(p)
             else:
                 tag = b'r%d.' % len([o for o in ops if o[0] == 'w'])
                 p = (tag + b'y' * n)[:n]
@@ -252,10 +292,10 @@ def lines_of(case, for_impl):
             if len(o) > 3:          # long form: raw text, type, formatted-text mode, formatted text, age of the message object
                 raw = o[3]
                 age = o[4] if len(o) > 4 else 0
-                ls.append('%s %s %d %d %s' % (o[0], hx(o[1] if raw is None else raw), o[2], 0 if raw is None else 1,
-                                             '-' if raw is None else hx(o[1])) + (' %d' % age if age and for_impl else ''))
+                ls.append('%s %s %d %d %s' % (o[0], hx_text(o[1] if raw is None else raw, for_impl), o[2], 0 if raw is None else 1,
+                                             '-' if raw is None else hx_text(o[1], for_impl)) + (' %d' % age if age and for_impl else ''))
             else:
-                ls.append(o[0] + ' ' + hx(o[1]) + (' %d' % o[2] if len(o) > 2 else ''))
+                ls.append(o[0] + ' ' + hx_text(o[1], for_impl) + (' %d' % o[2] if len(o) > 2 else ''))
         elif o[0] == 'wo':
             ls.append('wo %s %s' % (hx(o[1]), hx(o[2])) + (' %d' % o[3] if len(o) > 3 else '') + (' %d' % o[4] if len(o) > 4 else ''))
         elif o[0] == 'mkdir':
@@ -283,7 +323,7 @@ def written_bytes(case, payload):
     if case.get('codec'):
         enc = {'ISO-8859-1': 'latin-1', 'windows-1251': 'cp1251'}[case['codec']]
         return payload.decode('utf-8').encode(enc, errors='replace') + b'\n'
-    return payload + b'\n'
+    return shown(payload) + b'\n'
 
 
 def parse_listing(line, names, decode):
@@ -543,6 +583,7 @@ def show_op(o):
         return 'construct'
     if o[0] in ('w', 'w2'):
         return '%s %r' % (o[0], o[1][:40]) + ('...(%d bytes)' % len(o[1]) if len(o[1]) > 40 else '') + \
+            (' (a text with unpaired UTF-16 surrogates, shown here in "surrogatepass" UTF-8; Qt renders %r)' % shown(o[1])[:40] if _SURR.search(o[1]) else '') + \
             (' type=%s' % MTYPE_NAME.get(o[2], o[2]) if len(o) > 2 else '') + \
             (' (= the FORMATTED text, set%s; raw message text %r)' % (' but empty' if not o[1] else '', o[3][:40]) if len(o) > 3 and o[3] is not None else '') + \
             (' (message object constructed %d ms before it is sent)' % o[4] if len(o) > 4 and o[4] else '')
@@ -1157,7 +1198,8 @@ def run_check(pid):
         return h
     bnd, kinds, cross, ticks, jumps, predated, tzdiff = {}, {}, {'9->10': 0, '99->100': 0}, 0, 0, 0, 0
     mtypes, fatal_at_limit = {}, 0
-    shape_h = {'ends_in_newline': 0, 'lone_newline': 0, 'empty': 0, 'formatted_empty_over_raw': 0, 'formatted_other_than_raw': 0}
+    shape_h = {'ends_in_newline': 0, 'lone_newline': 0, 'empty': 0, 'formatted_empty_over_raw': 0, 'formatted_other_than_raw': 0,
+               'embedded_nul': 0, 'nul_first': 0, 'nul_last': 0, 'lone_nul': 0, 'unpaired_surrogate': 0}
     for c, (ol, infos) in zip(cases, olines):
         last_rot_t, t = None, c['t0']
         for k, o in enumerate(c['ops']):
@@ -1166,6 +1208,8 @@ def run_check(pid):
                 tzdiff += 1
             if o[0] == 'w':
                 shape_h['ends_in_newline'] += o[1].endswith(b'\n'); shape_h['lone_newline'] += o[1] == b'\n'; shape_h['empty'] += o[1] == b''
+                shape_h['embedded_nul'] += b'\0' in o[1]; shape_h['nul_first'] += o[1].startswith(b'\0'); shape_h['nul_last'] += o[1].endswith(b'\0')
+                shape_h['lone_nul'] += o[1] == b'\0'; shape_h['unpaired_surrogate'] += bool(_SURR.search(o[1]))
                 if len(o) > 3 and o[3] is not None:
                     shape_h['formatted_empty_over_raw' if not o[1] else 'formatted_other_than_raw'] += 1
                 ty = MTYPE_NAME[o[2] if len(o) > 2 else 4]
@@ -1173,7 +1217,7 @@ def run_check(pid):
                 if ty == 'fatal' and infos and k + 1 < len(infos) and infos[k + 1]['new_rot']:
                     fatal_at_limit += 1
             if o[0] == 'w' and c['L'] > 0:
-                d = len(o[1]) + 1 - c['L']
+                d = len(shown(o[1])) + 1 - c['L']
                 if -2 <= d <= 2:
                     bnd[str(d)] = bnd.get(str(d), 0) + 1
                 elif len(o[1]) == 0:
